@@ -12,8 +12,8 @@ KIND = 'side'
 
 
 class Spec(object):
-    def __init__(self, tag, module, sel, n=(None, None)):      # n: cap on embedded cases per tier (None: all)
-        self.tag, self.module, self.sel, self.n = tag, module, sel, n
+    def __init__(self, tag, module, sel, n=(None, None), only=None):   # n: cap per tier (None: all); only: case filter
+        self.tag, self.module, self.sel, self.n, self.only = tag, module, sel, n, only
         self._prop = None
 
     @property
@@ -51,8 +51,11 @@ class Sides(object):
             n = sp.n[0] if tier == 'quick' else sp.n[1]
             k = 0
             for c in sp.prop.corpus():
-                yield {'kind': KIND, 'side': sp.tag, 'c': c}
+                if sp.only is None or sp.only(c):
+                    yield {'kind': KIND, 'side': sp.tag, 'c': c}
             for c in sp.prop.cases(rng, tier):
+                if sp.only is not None and not sp.only(c):
+                    continue
                 if n is not None and k >= n:
                     break
                 k += 1
